@@ -153,6 +153,22 @@ def discharge(run, ob, timeout=10, want_all=False):
     hyps = relevant_hyps(hyps, ob.goal)
     unfold = run.make_unfolder() if hasattr(run, 'make_unfolder') else None
     nlmul = 'nlmul' in (run.spec.flags if getattr(run, 'spec', None) is not None else ())
+    qkey = None
+    if 'slow' in (run.spec.flags if getattr(run, 'spec', None) is not None else ()):
+        timeout = timeout * 6         # a function whose obligations are known to need E-matching over nested quantifiers
+        if not ob.expect_sat:
+            # the instantiated form of these queries is huge and slow to generate: look the result up by the quantified text
+            try:
+                tq, _ = smt.build_query(hyps, ob.goal, quantified=True, nlmul=nlmul, unfold=run.make_unfolder() if unfold else None)
+                qkey = hashlib.sha256((tq + '|q|%d' % timeout).encode()).hexdigest()
+                cached = _cache_get(qkey)
+                if cached is not None and cached.get('result') == 'unsat':
+                    cached['cached'] = True
+                    cached['query'] = tq
+                    ob.result = cached
+                    return cached
+            except Exception:
+                qkey = None
     try:
         text, info = smt.build_query(hyps, ob.goal, quantified=False, nlmul=nlmul, unfold=unfold)
     except Exception as e:  # printing problem = engine bug; counts as failed
@@ -185,10 +201,15 @@ def discharge(run, ob, timeout=10, want_all=False):
         per.update(rs)
     else:
         jobs1 = [('%s@z3-new' % form, 'z3-new', text)]
+        huge = text2 is not None and len(text) > 1500000 and len(text2) * 8 < len(text)
+        if huge:
+            jobs1 = []            # instance explosion: the quantified form is the only one with a chance
         if text2 is not None:
             jobs1.append(('quantified@z3-new', 'z3-new', text2))
             jobs1.append(('quantified@z3', 'z3', text2))
-        w, rs = smt.race(jobs1, min(timeout, 6), stop_on=('unsat',) if form != 'ground' else ('sat', 'unsat'))
+            if huge:
+                jobs1.append(('quantified@cvc5', 'cvc5', text2))
+        w, rs = smt.race(jobs1, timeout if huge else min(timeout, 6), stop_on=('unsat',) if form != 'ground' else ('sat', 'unsat'))
         per.update(rs)
         res = None
         if w is not None:
@@ -197,15 +218,15 @@ def discharge(run, ob, timeout=10, want_all=False):
             if f == 'quantified':
                 text = text2
         else:
-            jobs = [('%s@z3' % form, 'z3', text), ('%s@cvc5' % form, 'cvc5', text)]
-            if rs.get('%s@z3-new' % form, ('timeout',))[0] not in ('sat', 'unsat') and timeout > 4:
+            jobs = [('%s@z3' % form, 'z3', text), ('%s@cvc5' % form, 'cvc5', text)] if not huge else []
+            if not huge and rs.get('%s@z3-new' % form, ('timeout',))[0] not in ('sat', 'unsat') and timeout > 4:
                 jobs.append(('%s@z3-new' % form, 'z3-new', text))
-            if text2 is not None:
+            if text2 is not None and not huge:
                 jobs.append(('quantified@z3', 'z3', text2))
                 jobs.append(('quantified@cvc5', 'cvc5', text2))
                 if timeout > 4:
                     jobs.append(('quantified@z3-new', 'z3-new', text2))
-            w, rs = smt.race(jobs, timeout, stop_on=stop)
+            w, rs = smt.race(jobs, timeout, stop_on=stop) if jobs else (None, {})
             for k_, v_ in rs.items():
                 if k_ not in per or v_[0] in ('sat', 'unsat'):
                     per[k_] = v_
@@ -241,6 +262,8 @@ def discharge(run, ob, timeout=10, want_all=False):
     res['hash'] = hashlib.sha256(text.encode()).hexdigest()
     if res['result'] in ('sat', 'unsat'):
         _cache_put(key, res)
+        if qkey is not None and res['result'] == 'unsat':
+            _cache_put(qkey, res)
     res['query'] = text
     ob.result = res
     return res
